@@ -118,6 +118,7 @@ type Built struct {
 	Msgs   []sdk.Msg
 	Signer *Actor
 	Auth   *AuthTruth
+	Proof  *ProofTruth
 	Info   string
 }
 
@@ -298,6 +299,8 @@ func (e *Env) build(op *Op) (*Built, string) {
 		return &Built{Msgs: []sdk.Msg{slashingtypes.NewMsgUnjail(a.ValAddr)}, Signer: a}, ""
 	case "store":
 		return e.buildStore(op, a)
+	case "did_bind", "did_update", "sid_payaddr":
+		return e.buildDid(op, a)
 	case "ready":
 		d := e.data(op.D)
 		o, ok := e.orderOf(d, op.W)
